@@ -1135,11 +1135,11 @@ func (g *FunctionGenerator[V]) GenerateFunc(ast parser2.AST, gc GeneratorContext
 					return nil, false, err
 				}
 				return func(st Stack[V], cs []V) (V, error) {
-					for _, argFunc := range argsFuncList {
-						v, err := argFunc(st, cs)
-						if err != nil {
-							return zero, a.EnhanceErrorf(err, "error in function call to %s", id.Name)
-						}
+					args, err := evalArgs(st, cs, argsFuncList)
+					if err != nil {
+						return zero, a.EnhanceErrorf(err, "error in function call to %s", id.Name)
+					}
+					for _, v := range args {
 						st.Push(v)
 					}
 					return fun.Func(st.CreateFrame(len(argsFuncList)), nil)
@@ -1166,11 +1166,11 @@ func (g *FunctionGenerator[V]) GenerateFunc(ast parser2.AST, gc GeneratorContext
 			if theFunc.argsNumberNotMatching(len(argsFuncList)) {
 				return zero, fmt.Errorf("wrong number of arguments at call of function, required %d, found %d in line %d", theFunc.Args, len(argsFuncList), a.Line)
 			}
-			for _, argFunc := range argsFuncList {
-				v, err := argFunc(st, cs)
-				if err != nil {
-					return zero, a.EnhanceErrorf(err, "error in arguments in function call to %v", a.Func)
-				}
+			args, err := evalArgs(st, cs, argsFuncList)
+			if err != nil {
+				return zero, a.EnhanceErrorf(err, "error in arguments in function call to %v", a.Func)
+			}
+			for _, v := range args {
 				st.Push(v)
 			}
 			return theFunc.Func(st.CreateFrame(len(argsFuncList)), cs)
@@ -1198,11 +1198,11 @@ func (g *FunctionGenerator[V]) GenerateFunc(ast parser2.AST, gc GeneratorContext
 						if theFunc.argsNumberNotMatching(len(argsFuncList)) {
 							return zero, a.Error(theFunc.argsNumberNotMatchingError(name, len(argsFuncList)))
 						}
-						for _, argFunc := range argsFuncList {
-							v, err := argFunc(st, cs)
-							if err != nil {
-								return zero, a.EnhanceErrorf(err, "error in arguments in method call to %s", name)
-							}
+						args, err := evalArgs(st, cs, argsFuncList)
+						if err != nil {
+							return zero, a.EnhanceErrorf(err, "error in arguments in method call to %s", name)
+						}
+						for _, v := range args {
 							st.Push(v)
 						}
 						v, err := theFunc.Func(st.CreateFrame(len(argsFuncList)), cs)
@@ -1221,12 +1221,12 @@ func (g *FunctionGenerator[V]) GenerateFunc(ast parser2.AST, gc GeneratorContext
 				if me.Args > 0 && me.Args != len(argsFuncList)+1 {
 					return zero, a.Errorf("wrong number of arguments at call of \"%s\", required %d, found %d", me.Description.String(name), me.Args-1, len(argsFuncList))
 				}
+				args, err := evalArgs(st, cs, argsFuncList)
+				if err != nil {
+					return zero, a.EnhanceErrorf(err, "error in arguments in method call to %s", name)
+				}
 				st.Push(value)
-				for _, arg := range argsFuncList {
-					v, err := arg(st, cs)
-					if err != nil {
-						return zero, a.EnhanceErrorf(err, "error in arguments in method call to %s", name)
-					}
+				for _, v := range args {
 					st.Push(v)
 				}
 				v, err := me.Func(st.CreateFrame(len(argsFuncList)+1), nil)
@@ -1239,6 +1239,22 @@ func (g *FunctionGenerator[V]) GenerateFunc(ast parser2.AST, gc GeneratorContext
 		}, fPure && aPure, nil
 	}
 	return nil, false, ast.GetLine().Errorf("not supported: %v", ast)
+}
+
+// evalArgs evaluates all arguments of a call before the first one is pushed to
+// the stack. An argument may itself create local variables (let, func), whose
+// stack slots are assigned at compile time relative to the frame of the caller,
+// that is without the arguments already evaluated.
+func evalArgs[V any](st Stack[V], cs []V, argsFuncList []ParserFunc[V]) ([]V, error) {
+	args := make([]V, len(argsFuncList))
+	for i, argFunc := range argsFuncList {
+		v, err := argFunc(st, cs)
+		if err != nil {
+			return nil, err
+		}
+		args[i] = v
+	}
+	return args, nil
 }
 
 func (g *FunctionGenerator[V]) createClosureLiteralFunc(a *parser2.ClosureLiteral, gc GeneratorContext) (ParserFunc[V], bool, error) {
